@@ -500,7 +500,7 @@ impl StoredPoint {
         ensures
             final(self).manifest_spec() == old(self).manifest_spec(),
             r is Some ==> final(self).pending() < old(self).pending(),
-            (r matches Some(Err(e)) && e.fatal_spec()) ==> stored_read_fatal(*old(self)),
+            (r matches Some(Err(e)) && e.fatal_spec()) ==> stored_read_fatal(*old(self)) && io_failure(),
             stored_read_fatal(*final(self)) == stored_read_fatal(*old(self)),
     { unimplemented!() }
 }
@@ -515,19 +515,23 @@ impl<'a, P: ProcessRun> PubPoint<'a, P> {
     { unimplemented!() }
 }
 
+// C41: "some store / collector operation failed fatally (I/O) during this run". Every assumed
+// function of the store and the collector that can return an error says so here; nothing about the
+// content of a repository can make it true.
+pub uninterp spec fn io_failure() -> bool;
 // Failure sources outside this unit (C41: the only places an Err can come from)
 pub uninterp spec fn store_open_failed(s: &StoreRun, ca: &CaCert) -> bool;
 pub uninterp spec fn collector_failed(c: &CollectorRun, ca: &CaCert) -> bool;
 impl<'a> StoreRun<'a> {
     #[verifier::external_body]
     pub fn pub_point(&self, ca: &CaCert) -> (r: Result<StoredPoint, Failed>)
-        ensures r is Err ==> store_open_failed(self, ca),
+        ensures r is Err ==> store_open_failed(self, ca) && io_failure(),
     { unimplemented!() }
 }
 impl<'a> CollectorRun<'a> {
     #[verifier::external_body]
     pub fn repository<'s>(&'s self, ca: &CaCert) -> (r: Result<Option<CollRepository<'s>>, RunFailed>)
-        ensures r is Err ==> collector_failed(self, ca),
+        ensures r is Err ==> collector_failed(self, ca) && io_failure(),
     { unimplemented!() }
 }
 impl<'a, P: ProcessRun> Run<'a, P> {
@@ -546,6 +550,8 @@ impl<'a, P: ProcessRun> PubPoint<'a, P> {
             final(self).repository_index == old(self).repository_index,
             final(self).processor == old(self).processor,
             r matches Ok(Some(m)) ==> mft_ok(&m, &**old(self).cert) && m.manifest_bytes == manifest_bytes,
+            // an error is a failure to read from the collector, nothing else (unit manifest_policy)
+            r is Err ==> io_failure(),
     { unimplemented!() }
 
     // PubPoint::check_collected_is_newer (engine.rs:982): ASSUMED frame; its result is C05 (unit newer).
@@ -556,6 +562,8 @@ impl<'a, P: ProcessRun> PubPoint<'a, P> {
             final(self).run == old(self).run, final(self).cert == old(self).cert,
             final(self).repository_index == old(self).repository_index,
             final(self).processor == old(self).processor,
+            // an error is a failure to rewrite the stored point (StoredPoint::reject), nothing else
+            r is Err ==> io_failure(),
     { unimplemented!() }
 }
 
@@ -665,7 +673,7 @@ pub uninterp spec fn repo_load_failed(r: &CollRepository, uri: &RsyncUri) -> boo
 impl<'a> CollRepository<'a> {
     #[verifier::external_body]
     pub fn load_object(&self, uri: &RsyncUri) -> (r: Result<Option<Bytes>, RunFailed>)
-        ensures r is Err ==> repo_load_failed(self, uri),
+        ensures r is Err ==> repo_load_failed(self, uri) && io_failure(),
     { unimplemented!() }
 }
 impl StoredManifest {
@@ -697,5 +705,8 @@ impl StoredPoint {
             r is Ok ==> gen_inv(final(this), final(collected), final(ca_tasks)@, old(this), old(collected)),
             *final(point_ok) == *old(point_ok),
             final(this).same_ctx(old(this)),
+            // `update` fails (as opposed to: is abandoned) only when the closure fails or the file
+            // system does
+            r matches Err(UpdateError::Failed(_)) ==> !P::PubPoint::infallible() || io_failure(),
     { unimplemented!() }
 }
